@@ -1,8 +1,68 @@
-import BqVerif.Model.Circ
-import BqVerif.Model.CircBlocks
+import BqVerif.Proofs.CircTimeline
+import BqVerif.Proofs.CircTimeline2
+import BqVerif.Proofs.CircHistory
+import BqVerif.Proofs.Trace
+/-! # C04 — Circuit editing calls have their documented effect on program order -/
 namespace BqVerif.C04
 open BqVerif.Circ
 
-theorem C04_placeholder : (Circ.empty [2]).numCycles = 0 := rfl
+/-- **append**: the operation goes to the end of the timeline of each qudit of its location and
+no other timeline changes (for ANY circuit, not only invariant ones). -/
+theorem C04_append_timeline (c : Circ) (o : Op) (q : Nat) :
+    (c.appendCore o).1.timeline q = c.timeline q ++ (if o.on q then [o] else []) :=
+  appendCore_timeline c o q
+
+/-- **insert** at an in-range cycle `k`: on each of its qudits the operation comes after
+everything in cycles `< k` and before everything in cycles `≥ k`; other timelines unchanged. -/
+theorem C04_insert_timeline (c : Circ) (k : Nat) (o : Op) (q : Nat) (hk : k < c.numCycles) :
+    (c.insertAt k o).timeline q =
+      proj q (c.cycles.take k).flatten ++ (if o.on q then [o] else []) ++
+        proj q (c.cycles.drop k).flatten :=
+  insertAt_timeline c k o q hk
+
+/-- **pop / remove**: exactly the addressed occurrence disappears, nothing else moves. -/
+theorem C04_pop_ops (c : Circ) (k q0 : Nat) (o : Op) (hinv : c.Inv) (hc : c.cell k q0 = some o) :
+    ∃ pre post, c.ops = pre ++ o :: post ∧ (c.removeAt k q0).ops = pre ++ post :=
+  removeAt_ops c k q0 o hinv hc
+
+/-- **replace**, same location set (the in-place branch): the new operation takes exactly the
+place of the old one in the operation sequence, nothing else moves. -/
+theorem C04_replace_inplace_ops (c : Circ) (k : Nat) (old o : Op) (hinv : c.Inv)
+    (hlt : k < c.cycles.length) (hmem : old ∈ c.cycles[k]) :
+    ∃ pre post, c.ops = pre ++ old :: post ∧
+      (c.cycles.modify k (fun cy => cy.map (fun x => if x == old then o else x))).flatten =
+        pre ++ o :: post :=
+  replace_inplace_ops c k old o hinv hlt hmem
+
+/-- **renumber_qudits / insert_qudit / pop_qudit**: relabelling every location by an injective map
+`f` relabels the timelines — qudit `f q` sees the relabelled sequence qudit `q` saw, and a qudit
+outside the image of `f` is idle. -/
+theorem C04_relabel_timelines (f : Nat → Nat) (hf : Function.Injective f) (l : List Op) :
+    (∀ q, proj (f q) (l.map (Op.relabel f)) = (proj q l).map (Op.relabel f)) ∧
+    (∀ p, (∀ q, f q ≠ p) → proj p (l.map (Op.relabel f)) = []) :=
+  ⟨fun q => proj_relabel f hf q l, fun p hp => proj_relabel_off f p hp l⟩
+
+/-- **Same timelines ⇒ same unitary**, for any width: in every monoid-valued semantics in which
+operations on disjoint qudits commute, two operation lists that agree on every qudit's timeline
+have the same ordered product.  (Structure-only transformations — compress, copy, straighten,
+fold∘unfold — are checked by the correspondence to preserve all timelines; this theorem is what
+makes that equality of denotations.) -/
+theorem C04_same_timelines_same_unitary {M : Type} [Monoid M] (sem : Op → M)
+    (hcomm : ∀ a b, Indep a b → sem a * sem b = sem b * sem a)
+    (l1 l2 : List Op) (h1 : ∀ o ∈ l1, o.loc ≠ []) (h2 : ∀ o ∈ l2, o.loc ≠ [])
+    (hp : ∀ q, proj q l1 = proj q l2) : (l1.map sem).prod = (l2.map sem).prod :=
+  trace_equiv sem hcomm l1 l2 h1 h2 hp
+
+/-- every editing history keeps the representation well-formed, so "the unitary of the circuit" is
+well defined independently of the linearisation the iterator picks -/
+theorem C04_history_inv (radixes : List Nat) (h : List Call) (hok : ∀ call ∈ h, call.Ok radixes) :
+    ((Circ.empty radixes).run h).Inv :=
+  (run_inv (Circ.empty radixes) h
+    ⟨by simp [Circ.empty], by simp [Circ.empty], by simp [Circ.empty]⟩ hok).1
+
+-- non-vacuity of the hypotheses of `C04_insert_timeline` / `C04_pop_ops`
+example :
+    let c : Circ := ⟨[2, 2], [[⟨6, [], [0, 1], [2, 2]⟩], [⟨4, [7], [1], [2]⟩]]⟩
+    (0 < c.numCycles) ∧ c.invB = true ∧ c.cell 1 1 = some ⟨4, [7], [1], [2]⟩ := by decide
 
 end BqVerif.C04
